@@ -77,7 +77,7 @@ def main_explore(pid, tier, seed, m, mutation_only=False, extra_oracle=None):
         mdl = _copy.deepcopy(sg.model())
         hid = [f for t in mdl["types"] if t["kind"] == "object" and t["name"] != "Query" and len(t["fields"]) > 1 for f in t["fields"][:1]]
         if hid: hid[0]["sdl_directives"] = hid[0].get("sdl_directives", "") + " @nonIntrospectable"
-        for cfg in (CONFIGS if tier != "quick" else rng.sample(CONFIGS[:8], 3) + [rng.choice(CONFIGS[8:])]):
+        for cfg in (CONFIGS if tier != "quick" else rng.sample([c_ for c_ in CONFIGS[:8] if not c_.get("sync_arguments")], 2) + [rng.choice([c_ for c_ in CONFIGS[:8] if c_.get("sync_arguments")])] + [rng.choice(CONFIGS[8:])]):
             engines.append((cfg, loop.run_until_complete(er.build_engine(mdl, renv, cfg=cfg))))
         if not mutation_only:
             tn0 = sg.obj_names[0]
